@@ -120,6 +120,8 @@ func vxC16Path() {
 		HTTPRequest: &http.Request{URL: &url.URL{Path: p}, TLS: &tls.ConnectionState{ServerName: sni}},
 	}
 	id, err := s.clientIDFromDNSContext(pctx)
+	vx.Note(id)
+	vx.Note(err != nil)
 	sniID, sniErr := vxC16Want(host, sni, strict)
 
 	cp := path.Clean(p)
@@ -212,6 +214,8 @@ func vxC16SNI() {
 		pctx.Conn = vxC16TLSConn{name: cli}
 	}
 	id, err := s.clientIDFromDNSContext(pctx)
+	vx.Note(id)
+	vx.Note(err != nil)
 	if proto == proxy.ProtoUDP || proto == proxy.ProtoTCP || proto == proxy.ProtoDNSCrypt {
 		vx.Reach("sni-plain")
 		vx.Assert(err == nil && id == "", "plain and DNSCrypt requests never carry a ClientID")
@@ -257,6 +261,8 @@ func vxC16HostHeader() {
 	s := vxC16Server(host, strict)
 	pctx := &proxy.DNSContext{Proto: proxy.ProtoHTTPS, HTTPRequest: &http.Request{URL: &url.URL{Path: "/dns-query"}, Host: hh}}
 	id, err := s.clientIDFromDNSContext(pctx)
+	vx.Note(id)
+	vx.Note(err != nil)
 	want, wantErr := vxC16Want(host, cli, strict)
 	if wantErr {
 		vx.Assert(err != nil && id == "", "rejected")
